@@ -712,10 +712,6 @@ func genWriteCase(tp *tape.Tape, op string) *writeCase {
 		if err != nil {
 			return nil
 		}
-		v.M = nil // map iteration order is not controllable
-		if m, ok := v.Any.(map[string]any); ok && len(m) > 1 {
-			v.Any = nil
-		}
 		wc.enc = func(w io.Writer) (int64, error) {
 			e := nbt.NewEncoder(w)
 			e.NetworkFormat(network)
@@ -723,7 +719,13 @@ func genWriteCase(tp *tape.Tape, op string) *writeCase {
 		}
 	case "nbt.enc.any":
 		root := nbtgen.Gen(tp, 3)
-		singlePath(root)
+		// Multi-key maps are encoded in Go's random map order. That is sound here:
+		// every offset of the output is failed in turn, so which write crosses a
+		// given offset does not matter for the verdict, and nothing order-dependent
+		// is folded into the event hash.
+		if tp.Bool(1, 2) {
+			singlePath(root)
+		}
 		v, err := decodeTo[any](nbtgen.Doc(root, "", false), false)
 		if err != nil || v == nil {
 			return nil
